@@ -114,7 +114,40 @@ def parse_races(paths, repo):
     return att, unatt, harn
 
 
+def run_gofuzz(part, env, log, timeout_s, repo, execs):
+    """coverage-guided tier: `go test -fuzz` (iteration-bounded); writes a child-style summary."""
+    cmd = ["timeout", "-s", "QUIT", "-k", "20", str(timeout_s), "go", "test", "-vet=off", "-tags", "verif"] + modfile_args(repo) + \
+          ["-run", "^$", "-fuzz", part["fuzz"], "-fuzztime", f"{execs}x", "./" + part["pkg"]]
+    t0 = time.time()
+    with open(log, "w") as f:
+        p = subprocess.run(cmd, cwd=HARNESS, env=env, stdout=f, stderr=subprocess.STDOUT)
+    txt = open(log, errors="replace").read()
+    ex = [int(x) for x in re.findall(r"execs: (\d+)", txt)]
+    tot = [int(x) for x in re.findall(r"new interesting: \d+ \(total: (\d+)\)", txt)]
+    summ = {"property": "", "part": part["name"], "evaluations": max(ex or [0]), "distinct": [f"coverage-distinct-input-{i}" for i in range(max(tot or [0]))],
+            "samples": [{"fuzz_target": part["fuzz"], "engine": "go test -fuzz (coverage-guided)", "last_progress_line": (re.findall(r"fuzz: elapsed.*", txt) or [""])[-1]}],
+            "violations": [], "viol_count": {}, "inconclusive": {}, "counters": {"fuzz_execs": max(ex or [0]), "max_coverage_distinct_inputs": max(tot or [0])}, "sets": {}, "notes": [], "complete": True}
+    if p.returncode != 0:
+        m = re.search(r"VIOLATION-(C\d+) (.*)", txt)
+        crash_dir = os.path.join(HARNESS, part["pkg"], "testdata", "fuzz", part["fuzz"])
+        witness = {}
+        if os.path.isdir(crash_dir):
+            for fn in sorted(os.listdir(crash_dir)):
+                witness[fn] = open(os.path.join(crash_dir, fn), errors="replace").read()[:4000]
+            shutil.rmtree(os.path.join(HARNESS, part["pkg"], "testdata"), ignore_errors=True)
+        if m or witness:
+            desc = m.group(2)[:500] if m else "fuzz target failed (panic in Apply?): " + (re.findall(r"^\s+(panic: .*|.*_test.go:\d+: .*)$", txt, re.M) or ["see log"])[0][:300]
+            summ["violations"].append({"sig": "statemsg:apply-bad-input", "desc": "coverage-guided fuzzing: " + desc, "witness": witness})
+            summ["viol_count"]["statemsg:apply-bad-input"] = 1
+        else:
+            summ["complete"] = False
+    json.dump(summ, open(env["VERIF_OUT"], "w"))
+    return (0 if summ["complete"] else p.returncode), time.time() - t0
+
+
 def run_child(spec):
+    if spec[0] == "gofuzz":
+        return run_gofuzz(*spec[1:])
     (binpath, runre, env, log, timeout_s, extra_args) = spec
     cmd = ["timeout", "-s", "QUIT", "-k", "20", str(timeout_s), binpath, "-test.run", runre, "-test.timeout", "0", "-test.count", "1", "-test.v"] + list(extra_args)
     t0 = time.time()
@@ -160,6 +193,8 @@ def main():
     # ---- build
     bins = {}
     for part in prop["parts"]:
+        if part.get("kind") == "gofuzz":
+            continue
         key = (part["pkg"], bool(part.get("race")))
         if key not in bins:
             bins[key] = build(part["pkg"], key[1], repo)
@@ -181,6 +216,16 @@ def main():
         if replay and part["name"] != json.load(open(replay)).get("part", part["name"]):
             continue
         nsh = part.get("shards", {}).get(tier, 1)
+        if part.get("kind") == "gofuzz":
+            execs = part.get("execs", {}).get(tier, 0)
+            if not execs or replay:
+                continue
+            env = goenv()
+            env.update({"VERIF_OUT": os.path.join(outdir, f"{part['name']}-0.json")})
+            log = os.path.join(outdir, f"{part['name']}-0.log")
+            specs.append(("gofuzz", part, env, log, part.get("timeout", {}).get(tier, 1800), repo, execs))
+            meta.append((part, 0, env["VERIF_OUT"], log))
+            continue
         if replay:
             nsh = 1
         for sh in range(nsh):
